@@ -10,6 +10,7 @@ Judge for C17 (event traces, PROTOCOL.md "Event-trace lines" / C17).  Every line
   fstart <t>          f_t started
   fend <t> <r>        f_t is about to return r
   ret <t> <r>         Do returned r to goroutine t
+  fpanic <t>          f_t panics (treated as `fend t [0,…,0]`; that caller never returns)
 
 Model output: `ok` while the set of model states compatible with the events so far is non-empty, then
 `rejected:<event>` for the first event that empties it and `rejected:earlier` afterwards.  The set is advanced
@@ -109,6 +110,11 @@ def step (st : St) (toks : List Val) (_impl : String) : St × Out :=
     let st' : St := { arity := arity, started := true, ss := [init 0 arity] }
     (st', { model := "ok", spec := some "ok", tags := [s!"once.arity{arity}"] })
   | _ =>
+    -- `fpanic t`: f_t panics instead of returning.  For sync.Once that invocation still counts (`done` is set by a deferred store) and the
+    -- result fields keep their zero values: it is the event `fend t [0,…,0]`; the panicking caller itself never returns.
+    let toks := match toks with
+      | [.w "fpanic", .i t] => [.w "fend", .i t, ofInts (List.replicate st.arity 0)]
+      | _ => toks
     match parseEvent toks with
     | none => (st, { model := "bad-op" })
     | some e =>
